@@ -39,10 +39,8 @@ fn configs(prop: &str, thorough: bool) -> Vec<(usize, usize)> {
     } else {
         v = match prop {
             "c21" => vec![(0, 3), (0, 12), (1, 0), (1, 4), (2, 3), (2, 15), (3, 3), (3, 22), (4, 4), (5, 8), (6, 12)],
-            _ => vec![
-                (0, 3), (0, 0), (1, 3), (1, 15), (2, 0), (2, 4), (3, 3), (3, 12), (4, 3), (4, 8), (5, 3), (5, 22),
-                (6, 4), (6, 12),
-            ],
+            "c20" => vec![(0, 3), (1, 0), (1, 15), (2, 4), (3, 3), (3, 12), (4, 8), (5, 3), (5, 22), (6, 4)],
+            _ => vec![(0, 3), (0, 0), (1, 3), (1, 15), (2, 0), (2, 4), (3, 3), (3, 12), (4, 8), (5, 3), (5, 22), (6, 4)],
         };
     }
     v
